@@ -1,13 +1,11 @@
-"""Independent reference model of Scenic regions (used by C03).
+"""Independent reference model of Scenic regions (used by C03); own arithmetic only, no call into scenic.
 
-Every reference set offers, with own arithmetic only (no call into scenic):
-  sd(P)      signed distance bound of the points P (n,3): > 0 = outside by at least that much,
-             <= 0 = inside (for planar sets the in-plane signed distance when z is exactly the
-             carrier height; curves / point sets have no interior)
+  sd(P)      signed distance bound of points P (n,3): > 0 = outside by at least that much, <= 0 = inside
+             (planar sets: the in-plane signed distance when z is exactly the carrier height; curves and
+             point sets have no interior)
   points(M)  about M quasi-uniform (Halton) points on the set, density M / measure
-  measure, dim (0 points, 1 length, 2 area, 3 volume), tol (membership margin),
-  slack (how far inside the ideal set the library's polygonal / mesh approximation may end),
-  zs (heights a point would have to be at), desc (json-able)
+  measure, dim (0 points, 1 length, 2 area, 3 volume), tol (membership margin), slack (how far inside the
+  ideal set the library's polygon / mesh approximation may end), zs (candidate heights), desc (json-able)
 Compositions are Boolean combinations of operand sd's; their measure is that of the composed set.
 """
 
@@ -37,12 +35,9 @@ def hal(n, dims, salt=0):
 
 def rot3(yaw, pitch, roll):
     """Scenic's intrinsic Z-X-Y Euler convention: R = Rz(yaw) Rx(pitch) Ry(roll)."""
-    cz, sz, cx, sx, cy, sy = (math.cos(yaw), math.sin(yaw), math.cos(pitch), math.sin(pitch),
-                              math.cos(roll), math.sin(roll))
-    rz = np.array([[cz, -sz, 0], [sz, cz, 0], [0, 0, 1.0]])
-    rx = np.array([[1.0, 0, 0], [0, cx, -sx], [0, sx, cx]])
-    ry = np.array([[cy, 0, sy], [0, 1.0, 0], [-sy, 0, cy]])
-    return rz @ rx @ ry
+    (cz, sz), (cx, sx), (cy, sy) = [(math.cos(a), math.sin(a)) for a in (yaw, pitch, roll)]
+    return (np.array([[cz, -sz, 0], [sz, cz, 0], [0, 0, 1.0]]) @ np.array([[1.0, 0, 0], [0, cx, -sx], [0, sx, cx]])
+            @ np.array([[cy, 0, sy], [0, 1.0, 0], [-sy, 0, cy]]))
 
 
 def box_sd(q, half):
@@ -91,21 +86,16 @@ def shoelace(rings):
     return tot
 
 
-def flat_sd(sd2, dz):
-    """Planar carrier: in-plane signed distance on the plane, positive distance off it."""
+def flat_sd(sd2, dz):  # planar carrier: in-plane signed distance on the plane, positive distance off it
     return np.where(dz == 0, sd2, np.hypot(np.maximum(sd2, 0), dz))
 
 
 class Ref:
     dim, slack, kind, zfree = 3, 0.0, "?", False  # zfree: ignore the height of a planar set (defect models only)
 
-    def inside(self, P, tol=0.0):
-        return self.sd(np.asarray(P, float).reshape(-1, 3)) <= tol
-
 
 class BoxRef(Ref):
     kind = "box"
-
     def __init__(self, dims, pos, ypr):
         self.h, self.pos, self.R = np.array(dims, float) / 2, np.array(pos, float), rot3(*ypr)
         self.measure = float(np.prod(dims))
@@ -127,7 +117,6 @@ def ico():
     """Unit icosphere (what SpheroidRegion really is): largest gap to the sphere, volume ratio."""
     if not _ICO:
         import trimesh
-
         m = trimesh.creation.icosphere(radius=1)
         _ICO["gap"] = 1 - float(np.linalg.norm(m.triangles_center, axis=1).min())
         _ICO["vol"] = float(m.volume) / (4 / 3 * math.pi)
@@ -136,7 +125,6 @@ def ico():
 
 class EllRef(BoxRef):
     kind = "spheroid"
-
     def __init__(self, dims, pos, ypr):
         super().__init__(dims, pos, ypr)
         self.desc["kind"] = "SpheroidRegion"
@@ -216,7 +204,6 @@ class PolyRef(Ref):
 class DiscRef(Ref):
     """Circle (angle None) or sector: centre, radius, heading of the centre line, opening angle."""
     dim = 2
-
     def __init__(self, center, radius, heading=0.0, angle=None, resolution=32):
         self.c, self.r, self.hd = np.array(center, float), float(radius), float(heading)
         self.ang = None if angle is None or angle >= math.tau - 0.001 else float(angle)
@@ -250,7 +237,6 @@ class DiscRef(Ref):
 
 class RectRef(Ref):
     dim, kind = 2, "rect"
-
     def __init__(self, pos, heading, width, length):
         self.c, self.hd, self.h = np.array(pos, float), float(heading), np.array([width / 2, length / 2])
         self.measure, self.tol, self.zs = width * length, 1e-6 * max(1.0, width, length), [float(pos[2])]
@@ -271,7 +257,6 @@ class RectRef(Ref):
 
 class LineRef(Ref):
     dim = 1
-
     def __init__(self, chains, kind):
         self.a = np.array([p for ch in chains for p in ch[:-1]], float)
         self.b = np.array([p for ch in chains for p in ch[1:]], float)
@@ -312,7 +297,6 @@ class BallRef(Ref):
 
 class PtsRef(Ref):
     dim = 0
-
     def __init__(self, pts, kind="pointset", desc=None):
         self.p = np.array(pts, float).reshape(-1, 3)
         self.kind, self.measure, self.tol = kind, len(self.p), 1e-6
@@ -329,10 +313,8 @@ class PtsRef(Ref):
 class VoxRef(Ref):
     """Union of axis-aligned cubes (centres, pitch): Chebyshev distance to the nearest centre."""
     kind = "voxel"
-
     def __init__(self, centers, pitch, desc):
         from scipy.spatial import cKDTree
-
         self.c, self.pitch = np.array(centers, float), float(pitch)
         self.tree = cKDTree(self.c)
         self.measure, self.tol = len(self.c) * self.pitch ** 3, 1e-6 * max(1.0, float(np.abs(self.c).max()))
@@ -386,9 +368,7 @@ class Comp(Ref):
         A, B = self.A, self.B
         if self.op == "intersect":
             return A.measure if (A.dim, A.measure) <= (B.dim, B.measure) else B.measure
-        if self.op == "difference" or A.dim > B.dim:
-            return A.measure
-        return B.measure if B.dim > A.dim else A.measure + B.measure
+        return A.measure if self.op == "difference" or A.dim > B.dim else B.measure if B.dim > A.dim else A.measure + B.measure
 
     @property
     def measure(self):
@@ -398,40 +378,29 @@ class Comp(Ref):
 
 
 class KDCells:
-    """Partition of space into 2**depth boxes by recursive median splits of a point sample
-    along its widest axis; adapts to sets of any intrinsic dimension."""
+    """Partition of space into <= 2**depth boxes by recursive median splits of a point sample along
+    its widest axis; adapts to sets of any intrinsic dimension."""
 
     def __init__(self, pts, depth=5):
-        self.nodes = []
         self.ncell = 0
-        self.root = self._build(pts, depth)
+        self.tree = self._build(pts, depth)
 
     def _build(self, pts, depth):
-        ext = pts.max(axis=0) - pts.min(axis=0) if len(pts) else np.zeros(3)
-        if depth == 0 or len(pts) < 8 or ext.max() <= 0:
-            self.ncell += 1
-            return -self.ncell  # leaf id = -(cell index + 1)
-        ax = int(ext.argmax())
-        cut = float(np.median(pts[:, ax]))
+        ax = int(np.ptp(pts, axis=0).argmax()) if len(pts) else 0
+        cut = float(np.median(pts[:, ax])) if len(pts) else 0.0
         left = pts[:, ax] <= cut
-        if left.all() or not left.any():
+        if depth == 0 or len(pts) < 8 or left.all() or not left.any():
             self.ncell += 1
-            return -self.ncell
-        self.nodes.append(None)
-        me = len(self.nodes) - 1
-        self.nodes[me] = (ax, cut, self._build(pts[left], depth - 1), self._build(pts[~left], depth - 1))
-        return me
+            return self.ncell - 1
+        return ax, cut, self._build(pts[left], depth - 1), self._build(pts[~left], depth - 1)
 
     def index(self, P):
-        out = np.zeros(len(P), dtype=int)
-        stack = [(self.root, np.arange(len(P)))]
+        out, stack = np.zeros(len(P), dtype=int), [(self.tree, np.arange(len(P)))]
         while stack:
             node, idx = stack.pop()
-            if node < 0:
-                out[idx] = -node - 1
-                continue
-            ax, cut, l, r = self.nodes[node]
-            m = P[idx, ax] <= cut
-            stack.append((l, idx[m]))
-            stack.append((r, idx[~m]))
+            if isinstance(node, int):
+                out[idx] = node
+            else:
+                m = P[idx, node[0]] <= node[1]
+                stack += [(node[2], idx[m]), (node[3], idx[~m])]
         return out
